@@ -57,6 +57,44 @@ fn handle(req: &Value) -> Value {
                    "errors": errors.iter().map(|e| json!([e.0, e.1, e.2, e.3, e.4, e.5])).collect::<Vec<_>>(),
                    "state": [state.0, state.1, state.2]})
         }
+        "format_lines_step" => {
+            let mut config = rustfmt_nightly::Config::default();
+            if let Some(v) = req["max_width"].as_u64() {
+                config.set().max_width(v as usize);
+            }
+            if let Some(v) = req["tab_spaces"].as_u64() {
+                config.set().tab_spaces(v as usize);
+            }
+            if let Some(v) = req["error_on_unformatted"].as_bool() {
+                config.set().error_on_unformatted(v);
+            }
+            if let Some(v) = req["error_on_line_overflow"].as_bool() {
+                config.set().error_on_line_overflow(v);
+            }
+            if let Some(js) = req["file_lines"].as_str() {
+                config.set().file_lines(js.parse().expect("file_lines json"));
+            }
+            let skipped = if req["skipped"].is_null() { vec![] } else { pairs(&req["skipped"]) };
+            let st = &req["state"];
+            let state = (
+                st[0].as_bool().unwrap_or(false),
+                us(&st[1]),
+                us(&st[2]),
+                us(&st[3]),
+                st[4].as_bool().unwrap_or(false),
+                st[5].as_bool().unwrap_or(false),
+            );
+            let event = req["char"].as_u64().and_then(|c| char::from_u32(c as u32));
+            let (ns, errors) = h::formatting::format_lines_step(
+                &config,
+                &skipped,
+                state,
+                event,
+                req["kind"].as_u64().unwrap_or(0) as u8,
+            );
+            json!({"state": [ns.0, ns.1, ns.2, ns.3, ns.4, ns.5],
+                   "errors": errors.iter().map(|e| json!([e.0, e.1, e.2, e.3, e.4, e.5])).collect::<Vec<_>>()})
+        }
         "make_diff" => {
             let hunks = h::rustfmt_diff::make_diff_plain(
                 req["original"].as_str().unwrap_or(""),
